@@ -292,7 +292,7 @@ pub fn subchecks(tier: Tier) -> Vec<SubCheck> {
     vec![generated(
         "eq_hash_ord",
         "families of 3..5 close hashes from one base (prefixes, trailing 'A' = symbol 0, one changed symbol, neighbouring block size, stretched runs = same normalised part, or fresh), all four plain types and both dual types; == <=> equal texts, equal => equal Hash (two fixed hashers), cmp = reference lexicographic order, antisymmetry, cmp==Equal <=> ==, sort differential; duals: order of the normalised parts when they differ, total/deterministic/transitive otherwise; non-trivial = a pair in prefix / trailing-'A' relation or sharing the normalised part; distinct by the family's texts",
-        tier.pick(400_000, 6_000_000),
+        tier.pick(800_000, 10_000_000),
         strategy,
         eval,
     )]
